@@ -46,7 +46,7 @@ func runC13Coalesce(c *kernel.Ctx) {
 	defer func() { mesh.Net = nil }()
 	t := c.Tape
 	c.SleepToEpoch()
-	n := t.Range(2, 3)
+	n := t.Range(2, 4) // with 4 brokers a relayed delta is queued on two links at once
 	line := n == 3 && t.Chance(1, 2)
 	cl := world.NewCluster(c, n, world.Licenses[2], func(i int, o *world.BrokerOpts) {
 		if t.Chance(1, 2) {
